@@ -205,7 +205,16 @@ def r3_halton(ctx, repo):
             vals = [const_value(v) if is_const(v) else None for v in init[0].value.elts]
             if vals != [0.0, 1.0]:
                 ok, detail = False, "accumulator/denominator start at %r, expected (0, 1)" % (vals,)
-    ctx.check(ok, "R3", C2, where(doe, vdc), "radical-inverse recurrence: i, r = divmod(i, base); denom *= base; x += r / denom, from (0, 1)" if ok else detail, key="recurrence")
+    state = True if ok else (None if detail == "digit loop not recognised" else False)
+    if state is None:
+        # a digit count taken from a truncated ratio of floating-point logarithms is a recognised defect
+        for c_ in calls_in(vdc):
+            if access_path(c_.func) == "int" and c_.args and any(isinstance(x, ast.Call) and (access_path(x.func) or "").split(".")[-1] in ("log", "log2", "log10") for x in ast.walk(c_.args[0])) \
+                    and any(isinstance(x, ast.BinOp) and isinstance(x.op, ast.Div) for x in ast.walk(c_.args[0])):
+                state = False
+                detail = ("the number of digits is computed as %s: a ratio of floating-point logarithms under-counts by one when the index is an exact power of the base "
+                          "(log(243)/log(3) = 4.999...), so the last digit of such indices is dropped" % text(c_))
+    ctx.check3(state, "R3", C2, where(doe, vdc), "radical-inverse recurrence: i, r = divmod(i, base); denom *= base; x += r / denom, from (0, 1)", detail, detail, key="recurrence")
     # wiring
     bh = doe.functions.get("build_halton")
     c = [c for c in calls_in(bh) if access_path(c.func) == "halton"]
